@@ -395,9 +395,9 @@ class Paraxial:
             tuple: A tuple containing the final height(s) and slope(s) of the
                 rays after tracing.
         """
-        self._process_input(y)
-        self._process_input(u)
-        self._process_input(z)
+        y = self._process_input(y)
+        u = self._process_input(u)
+        z = self._process_input(z)
 
         if reverse:
             surfaces = self.surfaces.inverted()
